@@ -57,6 +57,7 @@ type World struct {
 	height map[int]uint64 // per chain: last claim block height fed
 	stuck  map[int]bool
 	blockH int64
+	disabledTok map[int]bool
 	// monitor tallies (independent of the model): per token
 	deposited, executed []*big.Int
 	netIn               map[[2]int]*big.Int // (token, chain) -> deposited - executed through that chain (incl. cancelled refunds etc. via in-flight)
@@ -214,7 +215,7 @@ var (
 
 // NewWorld registers the token universe on the chain's CURRENT context (a per-history cache branch).
 func NewWorld(c *lib.Chain, sp Spec, hseed int64) *World {
-	w := &World{C: c, addr: map[int]sdk.AccAddress{}, nonce: map[int]uint64{}, height: map[int]uint64{}, stuck: map[int]bool{},
+	w := &World{C: c, addr: map[int]sdk.AccAddress{}, nonce: map[int]uint64{}, height: map[int]uint64{}, stuck: map[int]bool{}, disabledTok: map[int]bool{},
 		netIn: map[[2]int]*big.Int{}}
 	for _, ch := range sp.Chains {
 		w.Chains = append(w.Chains, chainID(ch))
